@@ -27,6 +27,7 @@ RULE = (
     "run on the renamed inputs and every named output of model / Jacobians / process_model / sensor_model (Python, and "
     "the compiled C++ for a subset) must equal the base program's output under the renaming (1e-12) and the reference. "
     "distinct = distinct (name list, keyword order) constructions + (base, renaming) twins; non-trivial = >= 2 names."
+    " Accept / refuse decisions with Config(extra_validation=True) are compared between a definition and its renamed / re-ordered / re-containered twins (3 definitions incl. a cross-coupled nonlinear one)."
 )
 ASSUMPTIONS = [
     "names are identifier-safe and avoid what the generator reserves in C++ (state, control, dt, data, rows, ...; _tN)",
